@@ -13,8 +13,9 @@ ALLDEVS = XDEVS + TDEVS
 INVS = "SchemaAgreesWithServer SchemaAgreesWithDesign ProducedResponseConforms"
 
 
-def gen_vectors(ctx, fam, label=None):
-    r = ctx.gen("mc/MC_OpenAPIOps", "gen/Gen_OpenAPIOps_schema.cfg", consts={"Family": '"%s"' % fam}, label=label or ("Gen exchanges " + fam), timeout=1500)
+def gen_vectors(ctx, fam, label=None, workers="auto"):
+    r = ctx.gen("mc/MC_OpenAPIOps", "gen/Gen_OpenAPIOps_schema.cfg", consts={"Family": '"%s"' % fam}, label=label or ("Gen exchanges " + fam), timeout=1500,
+                workers=workers)
     return r.vectors
 
 
@@ -52,23 +53,32 @@ def raw_request(v, meth):
     return {"method": "POST", "uri": uri, "headers": headers, "body": body}
 
 
-def run_exchanges(ctx, fam, vectors, per_design=40, name=None):
-    """Like httpcheck.run_family, with raw scenarios for the vectors marked raw.  Returns (cases, pipeline)."""
-    shapes, index = [], {}
-    for v in vectors:
-        k = hg.shape_key(v)
-        if k not in index:
-            index[k] = len(shapes)
-            shapes.append({"pa": v["pa"], "ra": v["ra"], "tagged": v.get("tagged", False)})
-    designs, where = hg.pack_designs(shapes, per_design)
-    pl = hg.Pipeline(ctx, name or ("gen-x" + fam))
+def run_exchanges(ctx, groups, per_design=40, name="gen-x"):
+    """Like httpcheck.run_family for several groups of vectors at once (each group gets designs of its own), with raw
+    scenarios for the vectors marked raw.  groups: [(tag, vectors)].  Returns (cases, pipeline); a case carries its tag."""
+    designs, plan = [], []           # plan: (tag, vector, design index, service, Go method)
+    for tag, vectors in groups:
+        shapes, index = [], {}
+        for v in vectors:
+            k = hg.shape_key(v)
+            if k not in index:
+                index[k] = len(shapes)
+                shapes.append({"pa": v["pa"], "ra": v["ra"], "tagged": v.get("tagged", False)})
+        ds, where = hg.pack_designs(shapes, per_design)
+        base = len(designs)
+        for d in ds:
+            d["api"]["name"] = "a%d" % (len(designs) + 1)
+            designs.append(d)
+        for v in vectors:
+            di, svc, meth = where[index[hg.shape_key(v)]]
+            plan.append((tag, v, base + di, svc, meth))
+    pl = hg.Pipeline(ctx, name)
     pl.prepare(designs)
     bins = pl.build_runners(designs)
-    ctx.log("%s: %d exchanges, %d method shapes, %d designs (%d unusable), %d methods set aside as uncompilable" % (
-        name or fam, len(vectors), len(shapes), len(designs), len(pl.failed), len(pl.bad_methods)))
+    ctx.log("%s: %d exchanges, %d designs (%d unusable), %d methods set aside as uncompilable" % (
+        name, len(plan), len(designs), len(pl.failed), len(pl.bad_methods)))
     scen, meta = {}, {}
-    for n, v in enumerate(vectors):
-        di, svc, meth = where[index[hg.shape_key(v)]]
+    for n, (tag, v, di, svc, meth) in enumerate(plan):
         if di in pl.failed or (di, "m" + meth[1:]) in pl.bad_methods:
             continue
         sid = "c%d" % n
@@ -77,15 +87,24 @@ def run_exchanges(ctx, fam, vectors, per_design=40, name=None):
         else:
             s = hc.scenario_for(v, sid, svc, meth)
         scen.setdefault(di, []).append(s)
-        meta[sid] = (v, di, meth)
+        meta[sid] = (tag, v, di, meth)
     events = pl.run_all(bins, scen)
     cases = []
-    for sid, (v, di, meth) in meta.items():
+    for sid, (tag, v, di, meth) in meta.items():
         if sid not in events:
             raise core.Infra("runner produced no observation for scenario %s" % sid)
-        cases.append({"id": sid, "v": v, "design": di, "method": meth, "events": events[sid], "obs": hc.project(v, events[sid])})
+        cases.append({"id": sid, "tag": tag, "v": v, "design": di, "method": meth, "events": events[sid], "obs": hc.project(v, events[sid])})
     pl.designs = designs
     return cases, pl
+
+
+def verdicts_for(ctx, cases, pl):
+    by = {}
+    for c in cases:
+        x = exchange_of(c["id"], c["events"])
+        if x:
+            by.setdefault(c["design"], []).append(x)
+    return schema_verdicts(ctx, pl.root, by)
 
 
 def exchange_of(cid, events):
